@@ -46,6 +46,9 @@ SEMANTIC = [
     ('unable to prove', 'other-semantic'),
     ('type invariant not satisfied', 'assertion'),
     ('precondition not satisfied', 'precondition'),
+    ('precondition not met', 'precondition'),
+    ('may fail to meet', 'assertion'),
+    ('index out of bounds', 'precondition'),
     ('assertion failed', 'assertion'),
     ('invariant not satisfied', 'loop invariant'),
     ('loop invariant', 'loop invariant'),
@@ -57,6 +60,7 @@ SEMANTIC = [
     ('unreachable', 'assertion'),
     ('recommendation not met', None),
     ('failed to', 'other-semantic'),
+    ('not satisfied', 'other-semantic'),
 ]
 
 
